@@ -22,7 +22,8 @@ from . import findings as F
 
 MAX_VIOL_PER_SHARD = 40
 MAX_OUTCOMES = 200000
-STALL_TIMEOUT = 1800.0       # seconds without any shard result before the run is declared stalled
+STALL_TIMEOUT = 3600.0       # seconds without any shard result before a thorough run is declared stalled
+STALL_TIMEOUT_QUICK = 600.0  # ... a quick run (its slowest shard takes about a minute)
 RECORD = bool(os.environ.get("VMC_RECORD_TABLES"))
 
 
@@ -193,7 +194,8 @@ def run_clauses(prop, clauses, seed=0, workers=None, selftest=True, fresh=False)
     ctxm = mp.get_context("fork")
     results = []
     broken = []
-    stall = float(os.environ.get("VMC_STALL_TIMEOUT", "0")) or STALL_TIMEOUT
+    stall = float(os.environ.get("VMC_STALL_TIMEOUT", "0")) or (
+        STALL_TIMEOUT if os.environ.get("VMC_TIER") == "thorough" else STALL_TIMEOUT_QUICK)
     if workers <= 1 or len(order) <= 1:
         for t in order:
             results.append(_work(t))
